@@ -55,6 +55,9 @@ const (
 	bzMalleatedSig      = 102
 )
 
+// classes whose hostility consists in the origin name not being registered
+var originClass = map[int]bool{bzUnregistered: true, bzOneByteChanged: true, bzTrailing01: true, bzTrailingSpace: true, bzPrefix: true, bzEmptyUnregistered: true, bzInteriorZero: true}
+
 var bzName = map[int]string{bzUnregistered: "unregistered-origin", bzOneByteChanged: "origin-one-byte-changed", bzTrailing01: "origin-trailing-0x01", bzTrailingSpace: "origin-trailing-space",
 	bzPrefix: "origin-prefix", bzEmptyUnregistered: "origin-empty-unregistered", bzReencrypt: "reencrypt-to-other-name-key", bzResignOtherKey: "resign-other-key",
 	bzReplacedRequestKey: "replaced-request-key-resigned", bzSigAbsent: "signature-absent", bzSigHalf: "signature-half", bzSigDoubled: "signature-doubled",
@@ -273,6 +276,12 @@ func (c c07) Execute(p *core.Plan) *core.Result {
 					w.Net.Send(&simnet.Msg{Sess: sid, Kind: world.KIssReq, From: "byzclient", To: o.Msg.To, Payload: append(wire, sig...), Faults: []string{"byz:" + bzName[bzReplayedCiphertext]}}, 1_000_000)
 				}
 			}
+		}
+		if o.OK && indep && hostile && originClass[byzClass[s.ID]] {
+			// the drawn near-miss name happens to be a registered name itself (e.g. the prefix of a
+			// one-byte name when the empty name is registered): not hostile — an excluded draw
+			res.Probe("hostile origin draw collided with a registered name (excluded)")
+			hostile = false
 		}
 		if o.OK {
 			if !indep {
